@@ -48,6 +48,12 @@ def _case(rng, fam, gseed, cfgd):
         cfgd["lamb_init"] = float(10.0 ** rng.uniform(-3, 0))
     case = work.mk_case(fam, gseed, cfgd)
     case["y0"] = "rand" if rng.random() < 0.3 else "none"
+    if fam in ("QP", "NLP") and rng.random() < 0.25:
+        # start point handed over with an integer dtype (array of ints / Python int), no slacks, no scaling
+        cfgd["scaling"] = "none"
+        case["gopts"] = {"row_force": ["eq"] * 12, "var_force": ["lower", "boxed", "upper", "lower"]}
+        case["int_start"] = str(rng.choice(["array", "scalar"]))
+        return case
     r = rng.random()
     if r < 0.1:
         case["x0"] = "none"
@@ -64,6 +70,21 @@ def run_case(case):
     dc = cfgd.pop("deriv_check", None)
     case2 = dict(case, cfg=cfgd)
     p = work.prepare(case2)
+    if case.get("int_start"):
+        lo = np.ceil(p.spec.var_lb)
+        hi = np.floor(p.spec.var_ub)
+        if case["int_start"] == "array":
+            xi = np.where(np.isfinite(lo), lo, np.where(np.isfinite(hi), hi, 0.0))
+            xi = np.minimum(np.maximum(xi, lo), np.where(np.isfinite(hi), hi, xi))
+            if np.all(xi >= p.spec.var_lb) and np.all(xi <= p.spec.var_ub):
+                p.x0 = xi.astype(np.int64)
+        else:
+            kmin = np.max(lo[np.isfinite(lo)], initial=-np.inf)
+            kmax = np.min(hi[np.isfinite(hi)], initial=np.inf)
+            if kmin <= kmax:
+                k = kmin if np.isfinite(kmin) else (kmax if np.isfinite(kmax) else 0.0)
+                p.x0 = int(k)
+        p.int_start_used = not isinstance(p.x0, np.ndarray) or p.x0.dtype.kind == "i"
     if dc:
         p.params.deriv_check = DerivCheck.CheckAll
     out = mon.run_solve(p.rec, p.params, p.x0, p.y0)
@@ -88,6 +109,7 @@ def run_case(case):
     x0 = work.x0_array(p)
     on_bound = bool(np.any((x0 == p.spec.var_lb) | (x0 == p.spec.var_ub)))
     res["ctr"]["starts_on_a_bound"] = int(on_bound)
+    res["ctr"]["integer_dtype_starts"] = int(bool(getattr(p, "int_start_used", False)))
     if stats["evals_checked"] > 20:
         res["nt_keys"] = ["%s-%s" % (case["fam"], "-".join(map(str, case["gseed"])))]
     if case["gseed"][-1] % 150 == 0:
@@ -100,12 +122,12 @@ def run_case(case):
 def finalize(agg, tier):
     return {
         "rule": "all problem families x pairwise covering array + random configurations (all Newton types, active-set "
-                "rules, controllers, scalings) x in-bounds starts (generator start, resampled start incl. components "
+                "rules, controllers, scalings) x in-bounds starts (generator start, integer-dtype arrays / Python int scalars, resampled start incl. components "
                 "exactly on bounds, x0=None) x derivative check on in 20% of the runs (exercises the exemption); "
                 "non-trivial = more than 20 non-exempt evaluations were checked; distinct by spec seed",
         "floors": {"evals_checked": 10000, "newton_Simplified": 50, "newton_Full": 50, "newton_ActiveSet": 50,
                    "newton_Globalized": 50, "evals_exempt": 100, "callback_iterates_checked": 5000,
-                   "starts_on_a_bound": 50},
+                   "starts_on_a_bound": 50, "integer_dtype_starts": 10},
         "assumptions": ["exemptions are decided from the recorded call-site chain (deriv_check:deriv_check, "
                         "scale:create_scaling), nothing else is exempt"],
     }
